@@ -304,8 +304,10 @@ def full_menu():
             ['BoolRet', 'in', ['bool'], [['a', ['T1'], 'in']]],
             ['IntRet', 'in', ['Cnt'], []],
             ['InOut', 'in', ['void'], [['x', ['T2'], 'inout']]],
+            ['Same', 'in', ['void'], [['a', ['T1'], 'in'], ['b', ['T1'], 'in'], ['c', ['T1'], 'inout']]],
             ['O0', 'out', ['void'], []],
-            ['O2', 'out', ['void'], [['a', ['T1'], 'in'], ['b', ['T3'], 'in']]]]
+            ['O2', 'out', ['void'], [['a', ['T1'], 'in'], ['b', ['T3'], 'in']]],
+            ['OSame', 'out', ['void'], [['a', ['T3'], 'in'], ['b', ['T3'], 'in']]]]
 
 
 def menu_events(menu):
@@ -474,11 +476,11 @@ def point_id(pt):
     return ','.join(diffs) or 'base'
 
 
-def points(k):
+def points(k, base=None):
     """Deviation-bounded enumeration: all valid points differing from the base in <= k dims."""
     from .explore import deviations  # pylint: disable=import-outside-toplevel
     seen = set()
-    for pt, combo in deviations(BASE_POINT, DIMS, k):
+    for pt, combo in deviations(base or BASE_POINT, DIMS, k):
         if not valid_point(pt):
             continue
         key = point_id(pt)
